@@ -41,9 +41,20 @@ RULE = ("case = ONE dictionary with application objects (VAR, RECORD members, AR
         "intended configuration (for the live-device source: the CiA 301 decoding of the pre-state plus the "
         "changes), (4) a fresh RemoteNode on a third network reads the same COB-ID, flags, type, mapping (and "
         "inhibit/event/SYNC start for types 254/255), (5) that node is subscribed to the COB-ID iff enabled. "
+        "Bit lengths: an object may be mapped with FEWER bits than it has (add_variable(index, sub, length); DCF "
+        "mapping words; a device pre-state whose mapping holds shorter entries) - the length is part of the "
+        "configuration, the device model accepts exactly the shorter lengths the case itself uses. Histories: for "
+        "the sources attrs / live-then-overwritten / live-then-changed the SAME node object may first be given "
+        "1..2 (thorough: ..3; directed family ..3) earlier complete configurations (preferring the objects the last "
+        "one or the device pre-state maps, with other bit lengths; same or another COB-ID), each saved through some "
+        "route or only configured; every save of the history is judged by (1)-(3) against the configuration set "
+        "right before it, the last one by (1)-(5); 'taken from the live device' then means the CiA 301 decoding of "
+        "what the reference device holds when read() starts. Directed family: same objects re-mapped with other "
+        "lengths (shorter->full, full->shorter, 3..4 steps, ARRAY elements beyond the declared ones) x source x "
+        "saved/unsaved, and devices that start with shorter entries, read and re-mapped. "
         "Writes of different PDOs may interleave freely. Non-trivial = several PDOs, pre-state enabled, >= 2 "
-        "mapped objects, an ARRAY element mapped, a 29-bit id, or a zero-valued DCF parameter over a non-zero "
-        "default; distinct = canonical JSON.")
+        "mapped objects, an ARRAY element mapped, a 29-bit id, an earlier configuration of the same node object, "
+        "or a zero-valued DCF parameter over a non-zero default; distinct = canonical JSON.")
 ASSUMPTIONS = [
     "a strict device accepts invalidate-and-change in one COB-ID write (real strict stacks do)",
     "bit 29 (frame format) of the COB-ID entry is not modelled: canopen strips it on read and never writes it",
@@ -52,8 +63,14 @@ ASSUMPTIONS = [
     "and the PDOs of one dictionary have pairwise different COB-IDs",
     "an ARRAY element beyond the declared sub-indices is a dictionary object (ODArray serves it from element 1, "
     "as for a CompactSubObj EDS); such elements are addressed by number only",
-    "after read() from the live device the saving node's own subscription is not judged (it is subscribed to "
-    "the device's previous COB-ID as well)",
+    "after read() from the live device, and from the second configuration of a history on, the saving node's own "
+    "subscription is not judged (it is subscribed to the previous COB-IDs as well); the fresh node's always is",
+    "a strict device lets an object be mapped with fewer bits than it has when the application asks for that "
+    "(add_variable's length argument); only lengths the case uses are accepted, any other length is refused",
+    "optional parameters (inhibit / event / SYNC start) an earlier configuration of the history set and the last "
+    "one leaves unset are not judged (the statement does not say whether they are kept or dropped)",
+    "lost frames / SDO time-outs during save() or read() are outside the quantifier of this property (inputs, "
+    "histories, configurations; no faults) and are not generated",
 ]
 BUDGET = {"quick": 150, "thorough": 420}
 NODE = 4
@@ -65,11 +82,13 @@ NO_RTR = 1 << 30
 class RefPdoDevice:
     """Strict CiA 301 PDO communication/mapping parameter objects of ONE PDO."""
 
-    def __init__(self, com_index, map_index, subs_present, mappable):
+    def __init__(self, com_index, map_index, subs_present, mappable, partial_ok=()):
         self.com = com_index
         self.map = map_index
         self.present = set(subs_present)         # optional com subs present on the device: 3, 5, 6
         self.mappable = dict(mappable)           # (index, sub) -> bit length
+        # (index, sub, bits) with fewer bits than the object has, which this device lets be mapped
+        self.partial_ok = {tuple(e) for e in partial_ok}
         self.cob = INVALID | 0x200
         self.type = 255
         self.inhibit = 0
@@ -167,7 +186,8 @@ class RefPdoDevice:
             for e in self.entries[:val]:
                 key = (e >> 16, (e >> 8) & 0xFF)
                 ln = e & 0xFF
-                if key not in self.mappable or self.mappable[key] != ln:
+                if key not in self.mappable or (self.mappable[key] != ln and
+                                                key + (ln,) not in self.partial_ok):
                     return 0x06040041
                 total += ln
             if total > 64:
@@ -219,7 +239,8 @@ def attach_device(srv, dev):
 # source and the API routes.  Single-PDO cases are flat (the PDO's keys sit in the case itself);
 # cases with several PDOs carry them in case["pdos"].
 PKEYS = ("dir", "number", "dict_subs", "device_subs", "cfg", "pre", "od_values", "zero_over_default",
-         "intended", "changes")
+         "intended", "changes", "prior")
+HISTORY_SOURCES = ("attrs", "live_modify", "live_keep")
 OPT = (("inhibit_time", 3, 0xFFFF), ("event_timer", 5, 0xFFFF), ("sync_start_value", 6, 240))
 ROUTES = ("each", "pdo", "rpdo_tpdo", "tpdo_rpdo")
 
@@ -335,6 +356,35 @@ def decode_pre(p):
     return out
 
 
+def decode_dev(p, dev):
+    """The configuration the reference device holds right now, decoded per CiA 301 (used for 'the
+    configuration taken from the live device' when earlier saves of the history changed the device)."""
+    out = {"cob_id": dev.cob & 0x1FFFFFFF, "enabled": not dev.cob & INVALID, "rtr_allowed": not dev.cob & NO_RTR,
+           "trans_type": dev.type,
+           "map": [[e >> 16, (e >> 8) & 0xFF, e & 0xFF] for e in dev.entries[:dev.count]]}
+    if dev.type >= 254:
+        for (name, sub, hi), val in zip(OPT, (dev.inhibit, dev.event, dev.sync)):
+            if sub in p["dict_subs"] and sub in p["device_subs"]:
+                out[name] = val
+    return out
+
+
+def partial_entries(case):
+    """Every (index, sub, bits) of the (normalised) case that maps FEWER bits than the object has."""
+    natural = app_entries(case)
+    out = set()
+    for p in case["pdos"]:
+        maps = [p["cfg"]["map"]] + [c["map"] for c in p.get("prior") or []]
+        maps.append([[e >> 16, (e >> 8) & 0xFF, e & 0xFF] for e in p["pre"].get("entries") or []])
+        if p.get("intended"):
+            maps.append(p["intended"]["map"])
+        for m in maps:
+            for index, sub, ln in m:
+                if (index, sub) in natural and 0 < ln < natural[(index, sub)]:
+                    out.add((index, sub, ln))
+    return out
+
+
 def _hx(v):
     return "None" if v is None else f"{v:#x}"
 
@@ -369,10 +419,12 @@ def run_case(case) -> Outcome:
     srv = RefSdoServer(0x600 + NODE, 0x580 + NODE)
     srv.attach(hub)
     mappable = app_entries(case)
+    partial = partial_entries(case)
+    nprior = max(len(p.get("prior") or []) for p in pdos) if src in HISTORY_SOURCES else 0
     devs = []
     for p in pdos:
         com, mp = com_map_index(p)
-        dev = RefPdoDevice(com, mp, p["device_subs"], mappable)
+        dev = RefPdoDevice(com, mp, p["device_subs"], mappable, partial)
         pre = p["pre"]
         if pre["enabled"]:
             dev.cob = pre["cob"]
@@ -400,10 +452,14 @@ def run_case(case) -> Outcome:
     else:
         head = ""
 
+    step = [""]          # which save of the history is being judged, for the report only
+
     def tag(p):
         return (f"{head + ': ' if head else ''}{label(p)} source {src} pre-enabled {p['pre']['enabled']} "
-                f"cfg {p['cfg']}" + (f" changes {p.get('changes')} reads {case.get('reads', 1)}"
-                                     if src == "live_keep" else ""))
+                f"{step[0]}cfg {p['cfg']}" + (f" changes {p.get('changes')} reads {case.get('reads', 1)}"
+                                               if src == "live_keep" else "") +
+                (f" earlier configurations of the same node object {p.get('prior')} saved "
+                 f"{case.get('prior_saved')}" if nprior else ""))
 
     def bad(p, kind, detail):
         D.append(Discrepancy(f"C09/{kind}", f"{tag(p)}: {detail}"))
@@ -428,6 +484,68 @@ def run_case(case) -> Outcome:
             cur[0] = p
             yield p, pm
         cur[0] = None
+
+    def judge_save(intended, saving_node_fresh):
+        """Oracles (1)-(3) on what ONE save did to the devices; True when something was found."""
+        # ---- (1) nothing refused ---------------------------------------------------
+        for p, dev in zip(pdos, devs):
+            if dev.refused:
+                i, s, v, code = dev.refused[0]
+                bad(p, "strict-device-refused", f"write {i:04x}:{s:02x}={v:#x} refused with {code:08x}; trace "
+                                                f"{[(hex(a), b, hex(c)) for a, b, c, d in dev.log]}")
+                return "refused"
+        # ---- (2) trace predicate, per PDO -------------------------------------------
+        for p, dev, want in zip(pdos, devs, intended):
+            _check_trace(p, dev, want, lambda kind, detail, p=p: bad(p, kind, detail))
+            if D:
+                return "trace"
+        # ---- (3) device store -----------------------------------------------------
+        for p, dev, want, pmap in zip(pdos, devs, intended, pmaps):
+            cob_id = want["cob_id"]
+            if (dev.cob & 0x1FFFFFFF) != cob_id or bool(dev.cob & INVALID) == want["enabled"] or \
+                    bool(dev.cob & NO_RTR) == want["rtr_allowed"]:
+                bad(p, "device/cob", f"device COB-ID entry {dev.cob:#x}")
+            if want.get("trans_type") is not None and dev.type != want["trans_type"]:
+                bad(p, "device/type", f"device type {dev.type} want {want['trans_type']}")
+            for attr, sub, name in ((dev.inhibit, 3, "inhibit_time"), (dev.event, 5, "event_timer"),
+                                    (dev.sync, 6, "sync_start_value")):
+                if want.get(name) is not None and sub in p["device_subs"] and attr != want[name]:
+                    bad(p, f"device/{name}", f"device holds {attr} want {want[name]}")
+            if dev.count != len(want["map"]) or dev.entries[:dev.count] != [_word(e) for e in want["map"]]:
+                bad(p, "device/mapping", f"device mapping {dev.count} {[hex(e) for e in dev.entries[:dev.count]]} "
+                                         f"want {[hex(_word(e)) for e in want['map']]}")
+            # subscription of the saving node: only for a node object that has never been configured, read
+            # or saved before (afterwards it is subscribed to its previous COB-IDs as well)
+            subs_cb = net.subscribers.get(cob_id, [])
+            if saving_node_fresh and (pmap.on_message in subs_cb) != bool(want["enabled"]):
+                bad(p, "subscribe/saving-node", f"saving node subscribed={pmap.on_message in subs_cb}, enabled="
+                                                f"{want['enabled']}")
+            if D:
+                return "device"
+        return None
+
+    # ---- history: earlier configurations of the SAME node object (each saved, or only configured) ----
+    saved_flags = case.get("prior_saved") or []
+    for r in range(nprior):
+        saved = saved_flags[r] if r < len(saved_flags) else True
+        step[0] = f"[earlier configuration {r + 1} of {nprior}{'' if saved else ' (not saved)'}] "
+        try:
+            for p, pm in each_pdo():
+                _apply_attrs(pm, p["prior"][r], case)
+            if saved:
+                clear_logs()
+                _via(node, pmaps, case.get("prior_route", "each"), "save")
+        except Exception as e:
+            refused = [x for dev in devs for x in dev.refused][:3]
+            culprit = cur[0] or next((p for p, dev in zip(pdos, devs) if dev.refused), pdos[0])
+            bad(culprit, "save-raises", f"{type(e).__name__}: {e}; device refused {refused}")
+            return Outcome(True, f"{src}/history/raises", D)
+        if saved:
+            found = judge_save([dict(p["prior"][r]) for p in pdos], r == 0)
+            if found:
+                return Outcome(True, f"{src}/history/{found}", D)
+    step[0] = "[last configuration of the history] " if nprior else ""
+    live_before = [decode_dev(p, dev) if nprior else decode_pre(p) for p, dev in zip(pdos, devs)]
 
     try:
         if src == "attrs":
@@ -467,11 +585,11 @@ def run_case(case) -> Outcome:
         return Outcome(True, f"{src}/raises", D)
 
     intended = []
-    for p in pdos:
+    for p, live in zip(pdos, live_before):
         if src in ("from_od", "load_configuration"):
             intended.append(p["intended"])
         elif src == "live_keep":
-            want = decode_pre(p)
+            want = live
             for key in p.get("changes") or []:
                 if p["cfg"].get(key) is not None:
                     want[key] = p["cfg"][key]
@@ -479,39 +597,9 @@ def run_case(case) -> Outcome:
         else:
             intended.append(dict(p["cfg"]))
 
-    # ---- (1) nothing refused ---------------------------------------------------
-    for p, dev in zip(pdos, devs):
-        if dev.refused:
-            i, s, v, code = dev.refused[0]
-            bad(p, "strict-device-refused", f"write {i:04x}:{s:02x}={v:#x} refused with {code:08x}; trace "
-                                            f"{[(hex(a), b, hex(c)) for a, b, c, d in dev.log]}")
-            return Outcome(True, f"{src}/refused", D)
-    # ---- (2) trace predicate, per PDO -------------------------------------------
-    for p, dev, want in zip(pdos, devs, intended):
-        _check_trace(p, dev, want, lambda kind, detail, p=p: bad(p, kind, detail))
-        if D:
-            return Outcome(True, f"{src}/trace", D)
-    # ---- (3) device store -----------------------------------------------------
-    for p, dev, want, pmap in zip(pdos, devs, intended, pmaps):
-        cob_id = want["cob_id"]
-        if (dev.cob & 0x1FFFFFFF) != cob_id or bool(dev.cob & INVALID) == want["enabled"] or \
-                bool(dev.cob & NO_RTR) == want["rtr_allowed"]:
-            bad(p, "device/cob", f"device COB-ID entry {dev.cob:#x}")
-        if want.get("trans_type") is not None and dev.type != want["trans_type"]:
-            bad(p, "device/type", f"device type {dev.type} want {want['trans_type']}")
-        for attr, sub, name in ((dev.inhibit, 3, "inhibit_time"), (dev.event, 5, "event_timer"),
-                                (dev.sync, 6, "sync_start_value")):
-            if want.get(name) is not None and sub in p["device_subs"] and attr != want[name]:
-                bad(p, f"device/{name}", f"device holds {attr} want {want[name]}")
-        if dev.count != len(want["map"]) or dev.entries[:dev.count] != [_word(e) for e in want["map"]]:
-            bad(p, "device/mapping", f"device mapping {dev.count} {[hex(e) for e in dev.entries[:dev.count]]}")
-        # subscription of the saving node (not after a live read: that one subscribed to the old id)
-        subs_cb = net.subscribers.get(cob_id, [])
-        if (pmap.on_message in subs_cb) != bool(want["enabled"]) and src not in ("live_modify", "live_keep"):
-            bad(p, "subscribe/saving-node", f"saving node subscribed={pmap.on_message in subs_cb}, enabled="
-                                            f"{want['enabled']}")
-        if D:
-            return Outcome(True, f"{src}/device", D)
+    found = judge_save(intended, src not in ("live_modify", "live_keep") and not nprior)
+    if found:
+        return Outcome(True, f"{src}/{found}", D)
     # ---- (4)+(5) read back on a fresh node ---------------------------------------
     net2, port2 = hub.attach("second")
     node2 = canopen.RemoteNode(NODE, build_od(client_od(case)))
@@ -548,17 +636,23 @@ def run_case(case) -> Outcome:
         if D:
             break
     array_mapped = _maps_array_member(case, intended)
+    hist = ""
+    if nprior:
+        hist = f"/history{nprior + 1}" + ("" if all((case.get("prior_saved") or [True] * nprior)[:nprior])
+                                          else "-some-unsaved")
+    if partial:
+        hist += "/partial-length"
     if multi:
         dirs = {p["dir"] for p in pdos}
         both = {p["number"] for p in pdos if p["dir"] == "rpdo"} & {p["number"] for p in pdos if p["dir"] == "tpdo"}
         shape = "same-number" if both else ("both-directions" if len(dirs) == 2 else f"{pdos[0]['dir']}-only")
         nen = sum(1 for w in intended if w["enabled"])
         return Outcome(True, f"multi/{src}/{shape}/{'all' if nen == len(pdos) else 'some' if nen else 'none'}-enabled"
-                             f"{'/array-' + array_mapped if array_mapped else ''}", D)
+                             f"{'/array-' + array_mapped if array_mapped else ''}{hist}", D)
     p, want = pdos[0], intended[0]
     pre = p["pre"]
     nontrivial = pre["enabled"] or len(want["map"]) >= 2 or want["cob_id"] > 0x7FF or \
-        p.get("zero_over_default", False) or array_mapped
+        p.get("zero_over_default", False) or array_mapped or bool(nprior)
     extra = ""
     if src == "live_keep":
         extra = f"/reads{case.get('reads', 1)}/{'changed' if p.get('changes') else 'unchanged'}"
@@ -566,7 +660,7 @@ def run_case(case) -> Outcome:
         extra = f"/reads{case['reads']}"
     return Outcome(nontrivial, f"{src}/{p['dir']}/{'pre-enabled' if pre['enabled'] else 'factory'}/"
                                f"{'29bit' if want['cob_id'] > 0x7FF else '11bit'}/map{len(want['map'])}"
-                               f"{'/array-' + array_mapped if array_mapped else ''}{extra}", D)
+                               f"{'/array-' + array_mapped if array_mapped else ''}{extra}{hist}", D)
 
 
 def _maps_array_member(case, intended):
@@ -652,10 +746,13 @@ def _add_map(pmap, entries, case):
         for m in ([o] if o["kind"] == "var" else o["members"]):
             if m.get("maplen"):
                 explicit.add((o["index"], m.get("sub", 0)))
+    natural = app_entries(case) if case else {}
     for k, (index, sub, ln) in enumerate(entries):
         form = forms[k % len(forms)] if forms else "num"
         if (index, sub) in explicit:
             form = "num_len"        # an object without a width of its own is mapped with an explicit length
+        if natural.get((index, sub), ln) != ln:
+            form = "num_len"        # fewer bits than the object has: the length is part of the configuration
         oname, mname, kind = names.get((index, sub), (None, None, None))
         if form == "num_len":
             pmap.add_variable(index, sub, ln)
@@ -752,19 +849,62 @@ def _draw_app(draw):
     return app
 
 
-def _draw_map(draw, cands):
+def _draw_map(draw, cands, partial=False, prefer=()):
+    """0..8 dictionary objects totalling <= 64 bits.  partial: an object may be mapped with FEWER bits
+    than it has (add_variable(..., length) / a device whose mapping holds a shorter entry); prefer: objects
+    another configuration of the same history maps (so the same object comes back with another length)."""
     out, total = [], 0
+    prefer = {(c[0], c[1]) for c in prefer}
     for _ in range(draw(st.integers(0, 8))):
         fit = [c for c in cands if total + c[2] <= 64]
         if not fit:
             break
-        c = draw(st.sampled_from(fit))
-        out.append(list(c))
+        again = [c for c in fit if (c[0], c[1]) in prefer]
+        c = list(draw(st.sampled_from(again if again and draw(st.booleans()) else fit)))
+        if partial and c[2] > 1 and draw(st.booleans()):
+            c[2] = draw(st.sampled_from(sorted({1, 4, 8, c[2] // 2, c[2] - 1} & set(range(1, c[2])))))
+        out.append(c)
         total += c[2]
     return out
 
 
+def _draw_cfg(draw, cands, subs, cob, partial, prefer=()):
+    """One complete application-side configuration (what _apply_attrs sets)."""
+    cfg = {"cob_id": cob, "enabled": draw(st.booleans()), "rtr_allowed": draw(st.booleans()),
+           "trans_type": draw(st.one_of(st.sampled_from([0, 1, 240, 252, 253, 254, 255]), st.integers(0, 255))),
+           "map": _draw_map(draw, cands, partial, prefer)}
+    for name, sub, hi in OPT:
+        if sub in subs and draw(st.booleans()):
+            cfg[name] = draw(st.one_of(st.just(0), st.integers(0, hi)))
+    return cfg
+
+
+def _draw_prior(draw, case, pdos, cands, max_prior):
+    """Give the PDOs a history: 1..max_prior earlier configurations of the same node object, each saved
+    (through any route) or only configured."""
+    n = draw(st.integers(1, max_prior))
+    natural = {(c[0], c[1]): c for c in cands}
+    taken = {p["cfg"]["cob_id"] for p in pdos}
+    case["prior_saved"] = [draw(st.integers(0, 3)) != 0 for _ in range(n)]
+    case["prior_route"] = draw(st.sampled_from(ROUTES))
+    for p in pdos:
+        subs = set(p["dict_subs"]) & set(p["device_subs"])
+        mapped = [natural[(e[0], e[1])] for e in p["cfg"]["map"] if (e[0], e[1]) in natural]
+        mapped += [natural[k] for k in ((e >> 16, (e >> 8) & 0xFF) for e in p["pre"]["entries"]) if k in natural]
+        prior = []
+        for _ in range(n):
+            if draw(st.booleans()):
+                cob = p["cfg"]["cob_id"]
+            else:
+                cob = draw(cob_ids().filter(lambda v: v not in taken))
+                taken.add(cob)
+            prior.append(_draw_cfg(draw, cands, subs, cob, draw(st.booleans()), mapped))
+        p["prior"] = prior
+    return n
+
+
 def _draw_pdo(draw, cands, direction, number, source, taken):
+    partial = draw(st.integers(0, 3)) == 0
     dict_subs = sorted(draw(st.sets(st.sampled_from([3, 5, 6]))))
     device_subs = sorted(set(dict_subs) | draw(st.sets(st.sampled_from([3, 5, 6]))))
     if draw(st.booleans()):
@@ -773,13 +913,14 @@ def _draw_pdo(draw, cands, direction, number, source, taken):
     taken.add(cob)
     cfg = {"cob_id": cob, "enabled": draw(st.booleans()), "rtr_allowed": draw(st.booleans()),
            "trans_type": draw(st.one_of(st.sampled_from([0, 1, 240, 252, 253, 254, 255]), st.integers(0, 255))),
-           "map": _draw_map(draw, cands)}
+           "map": _draw_map(draw, cands, partial)}
     for name, sub, hi in OPT:
         if sub in dict_subs and sub in device_subs and draw(st.booleans()):
             cfg[name] = draw(st.one_of(st.just(0), st.integers(0, hi)))
     pre_enabled = draw(st.booleans())
     pre = {"enabled": pre_enabled, "cob": draw(cob_ids()), "type": draw(st.integers(0, 255)),
-           "entries": [_word(e) for e in (_draw_map(draw, cands) if pre_enabled else [])],
+           "entries": [_word(e) for e in (_draw_map(draw, cands, draw(st.integers(0, 2)) == 0, cfg["map"])
+                                          if pre_enabled else [])],
            "inhibit": draw(st.integers(0, 1000)), "event": draw(st.integers(0, 1000)), "sync": draw(st.integers(0, 9))}
     if pre_enabled and draw(st.booleans()):
         pre["cob"] |= NO_RTR
@@ -845,7 +986,7 @@ def _draw_routes(draw, case):
 
 
 @st.composite
-def case_strategy(draw):
+def case_strategy(draw, max_prior=2):
     """ONE PDO in the dictionary."""
     direction = draw(st.sampled_from(["rpdo", "tpdo"]))
     number = draw(st.one_of(st.integers(1, 4), st.sampled_from([5, 64, 511, 512]), st.integers(1, 512)))
@@ -858,11 +999,13 @@ def case_strategy(draw):
     _draw_reads(draw, case, source)
     if draw(st.booleans()):
         _draw_routes(draw, case)
+    if source in HISTORY_SOURCES and draw(st.integers(0, 2)) == 0:
+        _draw_prior(draw, case, [case], _cands(app), max_prior)
     return case
 
 
 @st.composite
-def multi_strategy(draw, max_pdos=4):
+def multi_strategy(draw, max_pdos=4, max_prior=2):
     """SEVERAL PDOs in one dictionary: the same number in both directions, several numbers of one
     direction, or a free mix; some enabled, some not; saved and read back through the collection routes."""
     app = _draw_app(draw)
@@ -891,6 +1034,8 @@ def multi_strategy(draw, max_pdos=4):
             "addforms": draw(st.lists(st.sampled_from(ADDFORMS), min_size=1, max_size=4))}
     _draw_reads(draw, case, source)
     _draw_routes(draw, case)
+    if source in HISTORY_SOURCES and draw(st.integers(0, 3)) == 0:
+        _draw_prior(draw, case, pdos, cands, max_prior)
     return case
 
 
@@ -1001,12 +1146,74 @@ def directed_cases(thorough=False):
                     yield case
 
 
+# earlier mappings of the same node object (or of the device) -> last mapping: the same objects come back
+# with another bit length
+_HISTORIES = [
+    ([[(0x2000, 0, 4), (0x2100, 3, 8), (0x6000, 2, 8)]], [(0x2000, 0, 16), (0x2100, 3, 16)]),      # fewer bits -> all
+    ([[(0x2000, 0, 16), (0x6401, 1, 16)]], [(0x2000, 0, 8), (0x6401, 1, 4)]),                      # all -> fewer
+    ([[(0x2000, 0, 4)], [(0x2000, 0, 12), (0x2100, 1, 1)]], [(0x2100, 1, 8), (0x2000, 0, 16), (0x6000, 3, 8)]),
+    ([[(0x6000, 3, 4), (0x6000, 254, 1)]], [(0x6000, 254, 8), (0x6000, 3, 8)]),                    # beyond declared
+    ([[(0x2100, 3, 16)], [], [(0x2100, 3, 9)]], [(0x2100, 3, 16)]),
+]
+
+
+def history_cases(thorough=False):
+    """(c) ONE node object configured several times: earlier configurations (saved, or only configured)
+    map the objects of the last one with other bit lengths; (d) a device whose mapping holds entries with
+    fewer bits than the object, read and then re-mapped."""
+    k = 0
+    for earlier, last in _HISTORIES:
+        for source in HISTORY_SOURCES:
+            for unsaved in (None, 0, len(earlier) - 1) if thorough else (None, 0):
+                for d, n in (("tpdo", 1), ("rpdo", 2)) if thorough else ((("tpdo", 1), ("rpdo", 2))[k % 2],):
+                    for route in ROUTES if thorough else (ROUTES[k % 4],):
+                        pre = None
+                        if k % 2:
+                            pre = {"enabled": True, "cob": 0x3F1 | (NO_RTR if k % 4 == 1 else 0), "type": 254,
+                                   "entries": [_word(e) for e in earlier[0]], "inhibit": 7, "event": 9, "sync": 0}
+                        ttype = [1, 255, 254, 0][k % 4]
+                        p = _pdo(d, n, 0x290 + k % 5, k % 3 != 0, ttype, last, source, subs=(3, 5), pre=pre,
+                                 rtr=k % 4 != 2, opt={"inhibit_time": 3, "event_timer": 0}, changes=["map"])
+                        p["prior"] = []
+                        for j, m in enumerate(earlier):
+                            c = {"cob_id": 0x290 + (k + j) % 5 if j % 2 else 0x1000 + k, "enabled": (k + j) % 2 == 0,
+                                 "rtr_allowed": (k + j) % 3 != 0, "trans_type": [255, 1, 254][(k + j) % 3],
+                                 "map": [list(e) for e in m]}
+                            if (k + j) % 2:
+                                c["inhibit_time"] = 10 + j
+                            p["prior"].append(c)
+                        case = dict(p)
+                        case.update({"app": DIRECTED_APP, "source": source, "addforms": [ADDFORMS[k % len(ADDFORMS)]],
+                                     "prior_saved": [j != unsaved for j in range(len(earlier))],
+                                     "prior_route": route, "save_route": route, "cfg_route": ROUTES[(k + 1) % 4],
+                                     "read_route": ROUTES[(k + 2) % 4]})
+                        if source == "live_keep":
+                            case["reads"] = 1 + k % 2
+                        k += 1
+                        yield case
+        # (d) the device starts with the earlier mapping; no earlier configuration of the node object
+        for source, changes in (("live_keep", ["map"]), ("live_keep", []), ("live_modify", None)):
+            for d, n in (("tpdo", 1), ("rpdo", 2)) if thorough else (("tpdo", 1),):
+                pre = {"enabled": True, "cob": 0x3F1, "type": 255, "entries": [_word(e) for e in earlier[0]],
+                       "inhibit": 7, "event": 9, "sync": 0}
+                p = _pdo(d, n, 0x2A0, True, 255, last, source, subs=(3, 5), pre=pre, changes=changes)
+                case = dict(p)
+                case.update({"app": DIRECTED_APP, "source": source, "addforms": ["num", "name", "dotted"]})
+                if source == "live_keep":
+                    case["reads"] = 1 + (changes == [])
+                yield case
+
+
 def search(ctx):
     thorough = ctx.tier == "thorough"
     ctx.enumerate(directed_cases(thorough), "directed: several PDOs in one dictionary x source x collection route; "
                                             "ARRAY elements (declared / beyond) x source x add_variable form")
+    ctx.enumerate(history_cases(thorough), "directed: one node object configured 2..4 times (same objects mapped "
+                                           "with other bit lengths, saved or only configured in between) x source; "
+                                           "device pre-state with shorter mapping entries, read and re-mapped")
     # single-PDO and several-PDO dictionaries alternate, so that a budget cut on a loaded machine never
     # removes one of the two families altogether (salts stay below 100: see Ctx.hyp_seed)
     for rnd in range(6 if thorough else 1):
-        ctx.hypothesis(case_strategy(), 2000, salt=2 * rnd)
-        ctx.hypothesis(multi_strategy(max_pdos=6 if thorough else 4), 700, salt=2 * rnd + 1)
+        ctx.hypothesis(case_strategy(max_prior=3 if thorough else 2), 2000, salt=2 * rnd)
+        ctx.hypothesis(multi_strategy(max_pdos=6 if thorough else 4, max_prior=3 if thorough else 2), 700,
+                       salt=2 * rnd + 1)
